@@ -200,13 +200,18 @@ func (m *Manager) SetSubscriberQoS(qos *SubscriberQoS) error {
 		Priority:   qos.Priority,
 	}
 
-	// Create ingress (upload) token bucket
-	uploadBurst := uint32(qos.UploadBPS / 8)
-	if uploadBurst < 65536 {
-		uploadBurst = 65536
-	}
-	if uploadBurst > 10*1024*1024 {
-		uploadBurst = 10 * 1024 * 1024
+	// Create ingress (upload) token bucket. A configured burst size applies to
+	// both directions; only without one is a default derived from the rate.
+	uploadBurst := qos.BurstBytes
+	if uploadBurst == 0 {
+		// Default burst: 1 second of traffic, minimum 64KB
+		uploadBurst = uint32(qos.UploadBPS / 8)
+		if uploadBurst < 65536 {
+			uploadBurst = 65536
+		}
+		if uploadBurst > 10*1024*1024 {
+			uploadBurst = 10 * 1024 * 1024 // Cap at 10MB
+		}
 	}
 
 	ingressTB := &TokenBucket{
